@@ -200,6 +200,7 @@ func trickyInfo(r *gen.Rng) regInfo {
 }
 
 func (w *c10World) line(c *Ctx, in string) {
+	c.Pending(in)
 	parts := strings.Fields(in)
 	switch parts[0] {
 	case "reset":
